@@ -1534,3 +1534,6 @@ META = {
 }
 
 META['explanation'] += ' ' + "Further: memoised functions' results are never mutated in place; consumers of the final section list are read-only; sibling keyboard tables agree on the column of every shared key."
+
+META['explanation'] += ' ' + 'Round 13: the adjacency chain of is_next_on_keyboard, tabulated over the key offsets (drow, dpos), is symmetric, irreflexive and local; a local bound to the result of a detector helper that can return None is used only under a presence guard.'
+META['technique'] = META.get('technique', '') + ' + finite tabulation of the adjacency chain over key offsets (symmetry / locality) + optional-result guard rule'
